@@ -15,7 +15,10 @@ ASSUMPTIONS = [
 ]
 
 ALPH = ["'", '"', "\\", "\n", "\r", "\t", "\0", "a", "b", "n", "x", "u", "0", "1", "7", "8", "f", ";", "-", "/", "*", "#",
-        "é", "漢", " ", "N", "{", "}", "U", "`", "[", "]", "%", "_"]
+        "é", "漢", " ", "N", "{", "}", "U", "`", "[", "]", "%", "_",
+        # text that is not in a Unicode normalisation form: a combining mark after its base letter, singletons with a
+        # canonical replacement (KELVIN, OHM, ANGSTROM), conjoining jamo, a compatibility ligature, fullwidth, astral
+        "e\u0301", "\u0301", "\u212a", "\u2126", "\u212b", "\u1100\u1161", "\ufb01", "\uff21", "\U0001f600", "\u00a0", "\u200b", "\u2028"]
 SAFE = [c for c in ALPH if c not in ("\\", "\r", "\0")]
 MARK = "zq9marker"
 
@@ -73,7 +76,8 @@ def gen_strings(ctx):
         n = rng.choice([1, 2, 3, 5, 8, 12, 20, 40])
         alph = SAFE if rng.random() < 0.6 else ALPH
         out.append("".join(rng.choice(alph) for _ in range(n)))
-    out += ["select", "NULL", "--", "/* x */", "# c", "a;b", "it's", 'say "hi"', "O''Brien", "%", "_", "é漢"]
+    out += ["select", "NULL", "--", "/* x */", "# c", "a;b", "it's", 'say "hi"', "O''Brien", "%", "_", "é漢",
+            "cafe\u0301", "it's cafe\u0301; -- select", "\u212a", "\u2126m", "A\u030a", "\u1112\u1161\u11ab", "\ufb01n", "x\u0323\u0307", "\u00e9 vs e\u0301"]
     return out
 
 
